@@ -13,7 +13,7 @@ def harnessSigner (fail : Bool) (b : Bytes) : Option Bytes :=
   if fail then none else some (str s!"sum{b.foldl (· + ·) 0 % 65521}len{b.length}")
 
 def parsePredCE : String → Option Evl.CloudEvents.Pred
-  | "absent" => some .absent | "keep" => some (.ret true) | "drop" => some (.ret false) | "err" => some .err | _ => none
+  | "absent" => some .absent | "keep" => some (.ret true) | "drop" => some (.ret false) | "err" => some .err | "errkeep" => some .err | _ => none
 
 def errName : Err → String
   | .nilFilter => "E_NIL" | .missingSource => "E_SOURCE" | .badFormat => "E_FORMAT" | .emptySchema => "E_SCHEMA"
